@@ -87,6 +87,29 @@ const char *simk_disposition(int sig)
 	return disp[sig].set ? hname(disp[sig].h) : "dfl";
 }
 
+/* process-directed signals (SIGCHLD from the simulated children): pending for the process, with a
+ * preferred thread; any other thread that does not block the signal takes it once the preferred one
+ * cannot get to a delivery point (gone, or parked in a join / lock / flag wait) */
+static int ppend[NSIGS], ppref[NSIGS];
+
+static int proc_sig_for(int t, int s)
+{
+	return ppend[s] && !sigismember(&tmask[t], s) &&
+	       (ppref[s] == t || !simk_thread_takes_signals(ppref[s]) || sigismember(&tmask[ppref[s]], s));
+}
+
+void simk_raise_process(int sig, int pref)
+{
+	if (sig <= 0 || sig >= NSIGS)
+		return;
+	if (pref < 0 || pref >= MAXTHR)
+		pref = 0;
+	tr("\"e\":\"SigGen\",\"sig\":%d,\"x\":%d}", sig, pref);
+	ppend[sig] = 1;
+	ppref[sig] = pref;
+	simk_progress();
+}
+
 /* deliver what is pending and unblocked for the calling thread; returns the
  * number of handlers run */
 int simk_sigpoint(void)
@@ -95,6 +118,11 @@ int simk_sigpoint(void)
 
 	if (!simk_sig_enabled || me >= MAXTHR)
 		return 0;
+	for (int s = 1; s < NSIGS; s++)
+		if (proc_sig_for(me, s)) {
+			ppend[s] = 0;
+			tpend[me][s] = 1;
+		}
 	for (int s = 1; s < NSIGS; s++) {
 		if (!tpend[me][s] || sigismember(&tmask[me], s))
 			continue;
@@ -126,7 +154,7 @@ int simk_sig_pending_unblocked(int t)
 	if (!simk_sig_enabled || t >= MAXTHR)
 		return 0;
 	for (int s = 1; s < NSIGS; s++)
-		if (tpend[t][s] && !sigismember(&tmask[t], s))
+		if ((tpend[t][s] && !sigismember(&tmask[t], s)) || proc_sig_for(t, s))
 			return 1;
 	return 0;
 }
@@ -364,7 +392,7 @@ void simk_child_event(pid_t pid, int what, int arg)
 		sqt = (sqt + 1) % 64;
 	}
 	tr("\"e\":\"Child\",\"pid\":%d,\"what\":%d,\"arg\":%d,\"st\":%d}", (int)pid, what, arg, status);
-	simk_raise(SIGCHLD, sigchld_thread);
+	simk_raise_process(SIGCHLD, sigchld_thread);
 }
 
 pid_t __wrap_wait4(pid_t pid, int *status, int options, struct rusage *ru)
